@@ -98,15 +98,20 @@ StepPerturb(e) ==
       madeOK == blkok
       exempt == \/ (op.f = "proposer" /\ HasAddress(cx.st.vals, pb.proposer))
                 \/ (blk.height = cx.st.initialHeight /\ op.f \in {"commit_round", "commit_bid_hash", "commit_bid_pstotal"})
-      specpb == IF op.k = "ev_committed" THEN pb ELSE Perturb(cx, blk, op)
+      \* conformance of the operation itself: only for operations of the spec's alphabet for this block
+      \* (the random driver also aims operations at absent signatures etc.; those are judged all the same)
+      known  == /\ op \in AllOps(cx, blk) /\ op.k # "ev_committed"
+                /\ (cx.st.lastHeight = 0 \/ {cx.st.lastHeight, cx.st.initialHeight} \subseteq DOMAIN cx.hist)
+      specpb == IF known THEN Perturb(cx, blk, op) ELSE pb
       headerDiffers == \E f \in HeaderFields : pb[f] # blk[f]
   IN /\ UNCHANGED <<cx, blk, blkok>>
      /\ drift' = drift
           \cup FailIf(~SameModEvBytes(pb, specpb), D("perturbed block differs from Perturb of the spec: " \o cls))
           \cup FailIf(e.err # ff, D("rejected at another check than the spec: " \o cls))
      /\ viol' = viol
-          \cup FailIf(e.accepted # valid,
-                      V("AcceptIffValid", (IF e.accepted THEN "accepted_invalid:" \o ff \o ":" ELSE "rejected_valid:" \o e.err \o ":") \o cls))
+          \cup FailIf(e.accepted # valid \/ e.panic # "",
+                      V("AcceptIffValid", (IF e.panic # "" THEN "panic:" ELSE IF e.accepted THEN "accepted_invalid:" \o ff \o ":"
+                                           ELSE "rejected_valid:" \o e.err \o ":") \o cls))
           \cup FailIf(madeOK /\ op.f # "R" /\ pb # blk /\ ~exempt /\ e.accepted, V("PerturbedRejected", cls))
           \cup FailIf(madeOK /\ pb = blk /\ ~e.accepted, V("PerturbedRejected", "unchanged_rejected:" \o cls))
           \cup FailIf(e.accepted /\ valid /\ ~StatementTimeOK(cx, pb),
@@ -144,6 +149,7 @@ StepApply(e) ==
                                          ELSE IF e.ok # e.okB THEN "apply_verdict"
                                          ELSE IF e.rqA # e.rqB THEN "abci_requests" ELSE "stored_state_bytes"))
           \cup FailIf(e.ok /\ ~valid, V("AcceptIffValid", "applied_invalid:" \o FirstFailure(cx, blk)))
+          \cup FailIf(expOK /\ ~e.ok /\ e.panic # "", V("AcceptIffValid", "panic_applying_valid_block"))
           \cup FailIf(e.ok /\ r.ok /\ post # r.st, V("TransitionFn", FirstDiff(post, r.st)))
           \cup FailIf(~e.ok /\ post # st, V("TransitionFn", "failed_apply_changed_state"))
           \cup FailIf(e.ok /\ badV # {}, V("StoredHistory", "validators"))
